@@ -2,7 +2,8 @@
 (* C20: the space of serialised HyperLogLog documents, as an explicit model.     *)
 (* A document is a JSON object with the fields a serialiser writes (registers,   *)
 (* b, buildhasher), possibly omitted, duplicated, of the wrong type or joined    *)
-(* by an unknown one; b and the length of registers vary independently.          *)
+(* by an unknown one; b and the length of registers vary independently.  The     *)
+(* positional (array) rendering of the same values is part of the model too.     *)
 (* Deserialize is specified abstractly: a document is Valid iff it has exactly   *)
 (* the three fields once each, 4 <= b <= 18 and 2^b registers; the               *)
 (* deserialiser must accept every Valid document (round trip) and may only      *)
@@ -30,15 +31,23 @@ Layouts ==
     {<<"registers", "b", "buildhasher", "unknown">>, <<"unknown", "b", "registers", "buildhasher">>} \cup  \* unknown field
     {<<"registers", "bneg", "buildhasher">>, <<"registers", "bstr", "buildhasher">>, <<"regstr", "b", "buildhasher">>}  \* wrong types
 Fills == {"zero", "rand", "max"}
-Valid(d) == /\ Len(d.fields) = 3 /\ {d.fields[i] : i \in 1 .. 3} = Three
+\* "map": a JSON object (what the serialiser writes); "seq": the positional form [v1, v2, ...] of the same values
+\* (bincode-style; serde offers it to every struct visitor) - arbitrary input the deserialiser may reject or accept,
+\* but never turn into a sketch that violates the constructor's invariants
+Forms == {"map", "seq"}
+SeqLayouts == {<<"registers", "b", "buildhasher">>, <<"b", "registers", "buildhasher">>, <<"registers", "b">>,
+               <<"registers", "b", "buildhasher", "b">>, <<"registers", "bstr", "buildhasher">>}
+Valid(d) == /\ d.form = "map"
+            /\ Len(d.fields) = 3 /\ {d.fields[i] : i \in 1 .. 3} = Three
             /\ d.b >= 4 /\ d.b <= 18 /\ d.len = Pow2(d.b)
 Emit(rec) == IF EMIT THEN PrintT(ToJson(rec)) ELSE TRUE
-Init == \E b \in Bs, kind \in LenKinds, fill \in Fills, fields \in Layouts :
+Init == \E b \in Bs, kind \in LenKinds, fill \in Fills, fields \in Layouts, form \in Forms :
+          /\ (form = "seq" => (fields \in SeqLayouts /\ fill = "zero" /\ b \in {3, 4, 8, 18, 19} /\ kind \notin {"2^18", "2^18+1", "2m"}))
           /\ (kind \in {"m-1", "m", "m+1"} => HasM(b))
           /\ (kind \in {"2m", "3m"} => b <= 12)
           /\ ((b >= 17 /\ kind \in {"m-1", "m", "m+1"}) => (IF fill = "zero" THEN TRUE ELSE fields = <<"registers", "b", "buildhasher">>))
           /\ (kind \in {"2^18", "2^18+1"} => (fill = "zero" /\ fields = <<"registers", "b", "buildhasher">>))
-          /\ doc = [k |-> "doc", b |-> b, kind |-> kind, len |-> LenOf(b, kind), fill |-> fill, fields |-> fields]
+          /\ doc = [k |-> "doc", form |-> form, b |-> b, kind |-> kind, len |-> LenOf(b, kind), fill |-> fill, fields |-> fields]
           /\ Emit(doc @@ [valid |-> Valid(doc)])
 Next == UNCHANGED doc
 Spec == Init /\ [][Next]_doc
